@@ -11,8 +11,11 @@ import (
 	"context"
 	"errors"
 	"fmt"
+	coreevent "github.com/libp2p/go-libp2p/core/event"
+	"github.com/libp2p/go-libp2p/p2p/host/eventbus"
 	"os"
 	"sync"
+	"sync/atomic"
 	"testing"
 	"testing/synctest"
 	"time"
@@ -81,6 +84,8 @@ type sample struct {
 	Actual  string `json:"connectedness"`
 	Direct  int    `json:"open_direct"`
 	Limited int    `json:"open_limited"`
+	// the state named by the last EvtPeerConnectednessChanged a subscriber had read by then
+	Published string `json:"last_published_connectedness"`
 }
 
 type admitLog struct {
@@ -251,6 +256,19 @@ func runScenario(t *testing.T, r *run.R, sc *scenario, _ int) (res result) {
 		}, swarm.WithDialTimeout(5*time.Second))
 		if err != nil {
 			panic(err)
+		}
+		// what the swarm PUBLISHES about the peer (EvtPeerConnectednessChanged), read by a subscriber
+		var published atomic.Value
+		published.Store(network.NotConnected.String())
+		if sub, err := rig.Bus.Subscribe(new(coreevent.EvtPeerConnectednessChanged), eventbus.BufSize(64)); err == nil {
+			defer sub.Close()
+			go func() {
+				for e := range sub.Out() {
+					if ev, ok := e.(coreevent.EvtPeerConnectednessChanged); ok && ev.Peer == remote {
+						published.Store(ev.Connectedness.String())
+					}
+				}
+			}()
 		}
 		sw := rig.Swarm
 		adm := &admitLog{start: start}
@@ -483,7 +501,7 @@ func runScenario(t *testing.T, r *run.R, sc *scenario, _ int) (res result) {
 				synctest.Wait()
 				d, l := count()
 				mu.Lock()
-				res.Samples = append(res.Samples, sample{AtMs: ms(), Actual: sw.Connectedness(remote).String(), Direct: d, Limited: l})
+				res.Samples = append(res.Samples, sample{AtMs: ms(), Actual: sw.Connectedness(remote).String(), Direct: d, Limited: l, Published: published.Load().(string)})
 				mu.Unlock()
 				time.Sleep(time.Duration([]int{1, 2, 7, 30, 200}[k%5]) * time.Millisecond)
 			}
@@ -667,6 +685,14 @@ func check(sc *scenario, res *result) (out []finding, st map[string]int) {
 			out = append(out, finding{"connectedness-wrong/" + want + "-reported-" + s.Actual, fmt.Sprintf("at %d ms: %d direct, %d limited conns open, Connectedness = %s", s.AtMs, s.Direct, s.Limited, s.Actual)})
 			break
 		}
+		// ... also in the event stream: at a quiescent point the last published state is the state
+		if s.Published != "" && s.Published != want {
+			out = append(out, finding{"connectedness-event-wrong/" + want + "-last-published-" + s.Published, fmt.Sprintf("at %d ms (quiescent): %d direct, %d limited conns open, the last EvtPeerConnectednessChanged for the peer said %s", s.AtMs, s.Direct, s.Limited, s.Published)})
+			break
+		}
+		if want == network.Limited.String() && s.Published == want {
+			st["samples_Limited_also_published"]++
+		}
 		st["samples_"+want]++
 	}
 	if res.Waiters != 0 {
@@ -721,6 +747,7 @@ func TestC12(t *testing.T) {
 	holepunchPart(t, r)
 	hostPart(t, r)
 	upgraderKeepsLimited(t, r)
+	realRelayLimits(r)
 	r.Require("waiter_registrations", 200)
 	r.Require("events_placed_before_registration", 50)
 	r.Require("waiters_served_by_a_late_direct_conn", 100)
